@@ -25,7 +25,9 @@ int main(void)
       /* apply the stored statistics to the same matrix and to new rows */
       if(ty >= 0){
         NewMatrix(&ap, m->row, m->col); MatrixPreprocess(m, (int)ty, avg, sc, ap); pr_matrix("apply_same", ap);
-        { matrix *k = dup_matrix(ap); junk_m(ap); MatrixPreprocess(m, (int)ty, avg, sc, ap); RB(2, same_m(ap, k)); DelMatrix(&k); }
+        { matrix *k = dup_matrix(ap), *e0; junk_m(ap); MatrixPreprocess(m, (int)ty, avg, sc, ap); RB(2, same_m(ap, k));
+          /* ... and into an empty (never sized) output, which the apply path sizes itself */
+          initMatrix(&e0); MatrixPreprocess(m, (int)ty, avg, sc, e0); RB(3, same_m(e0, k)); DelMatrix(&e0); DelMatrix(&k); }
         DelMatrix(&ap);
         NewMatrix(&ap2, newrows->row, newrows->col); MatrixPreprocess(newrows, (int)ty, avg, sc, ap2); pr_matrix("apply_new", ap2); DelMatrix(&ap2);
       }
